@@ -135,6 +135,8 @@ def check_enum(ctx, F, adt, order, chars):
     ok_fs = len(conv) == 1 and len(nth) == 1
     if ok_fs:
         a = P.strip(prs.operand(conv[0]["args"][0]))
+        if not (a[0] == "field" and a[1][0] == "variant" and a[1][2] == "Some"):
+            a = P.strip(P.narrow_deep(a))       # `.ok_or(())?`: the same payload behind Ok / Continue wrappers
         # Some(c) of chars().nth(0)
         ok_fs = a[0] == "field" and a[1][0] == "variant" and a[1][2] == "Some"
         nt = nth[0]
@@ -256,7 +258,12 @@ def fold_rank_fn(F, fn, rule):
             v = ev(t[1], r, depth + 1)
             if isinstance(v, tuple) and v[0] in ("some", "none"):
                 return 1 if v[0] == "some" else 0
-            raise Bad("discriminant of a non-Option")
+            if isinstance(v, tuple) and v[0] == "rank":
+                # `*self as usize`: the declared discriminant of the variant
+                for var in F.adts[RANK]["variants"]:
+                    if var["name"] == v[1]:
+                        return var["discr"]
+            raise Bad("discriminant of something that is neither an Option nor the rank")
         if k == "phi":
             raise Bad("value depends on the path")
         raise Bad(f"term outside the folded subset: {k}")
@@ -583,9 +590,11 @@ def check_decoder_tables(ctx, F, rule, dec, bits):
         if s_[0] != "named" or any(c.rsplit("::", 1)[-1] not in ("iter", "into_iter", "copied") for c in chain):
             raise U(rule, f"decoder loop does not walk a constant table directly: {P.show(src)[:60]} via {chain}", dec)
         tv = F.const_value(s_[1])
-        if not tv or "array" not in tv or not all(isinstance(e, list) and len(e) == 2 and isinstance(e[0], int) and isinstance(e[1], str) for e in tv["array"]):
-            raise U(rule, f"{s_[1]} is not a constant table of (mask, variant) pairs", dec)
+        plain = bool(tv) and "array" in tv and all(isinstance(e, str) for e in tv["array"])
+        if not plain and (not tv or "array" not in tv or not all(isinstance(e, (list, tuple)) and len(e) == 2 and isinstance(e[0], int) and isinstance(e[1], str) for e in tv["array"])):
+            raise U(rule, f"{s_[1]} is not a constant table of (mask, variant) pairs or of variants", dec)
         item = P.strip(lp.item_term)
+        folded = {}
         hits = []
         for b, lab, op, x, y in I.rel_edges(dec, pr, F):
             if b not in lp.body or b in loop_sw:
@@ -611,8 +620,46 @@ def check_decoder_tables(ctx, F, rule, dec, bits):
                 u = P.strip(u)
                 return ("field", unref(u[1]), u[2]) if u[0] == "field" else u
             mask_t = ("field", item, 0)
-            is_mask = [unref(u) == mask_t for u in (a_, b_)] if a_ is not None else []
             is_val = [P.strip(u) == ("param", 1) for u in (a_, b_)] if a_ is not None else []
+            if plain and a_ is not None and sorted(is_val) == [False, True]:
+                # a table of variants, the mask computed from the entry (`SPADE_MASK << code(suit)`): folded per entry with the
+                # enum's code table
+                mterm = b_ if is_val[0] else a_
+                adt_ = tv.get("elem")
+                code_fn_ = F.impl_fn(f"std::convert::From<&{adt_}>", "u8", "from")
+                codes_ = {k_: I.int_leaf(v_) for k_, v_ in I.enum_match_table(F, code_fn_, adt_).items()}
+
+                def foldm(t_, var_, depth=0):
+                    t_ = P.strip(t_)
+                    c_ = P.const_int(t_)
+                    if c_ is not None:
+                        return c_
+                    if depth > 12:
+                        return None
+                    if t_[0] == "cast":
+                        return foldm(t_[2], var_, depth + 1)
+                    if t_[0] == "named" and t_[2] is not None:
+                        return P.const_int(t_[2])
+                    if t_[0] == "bin":
+                        x_, y_ = foldm(t_[2], var_, depth + 1), foldm(t_[3], var_, depth + 1)
+                        if x_ is None or y_ is None:
+                            return None
+                        return {"Shl": lambda: (x_ << y_) & ((1 << 64) - 1) if 0 <= y_ < 64 else None, "Mul": lambda: x_ * y_, "Add": lambda: x_ + y_,
+                                "BitOr": lambda: x_ | y_, "BitAnd": lambda: x_ & y_}.get(t_[1], lambda: None)()
+                    if t_[0] == "call" and len(t_[2]) == 1:
+                        g_ = F.fns.get(t_[1])
+                        if g_ is not None and I.resolve_forwarding(F, g_) is code_fn_ and P.strip(t_[2][0]) == item:
+                            return codes_[var_]
+                        if P.is_widening_from(t_[1]):
+                            return foldm(t_[2][0], var_, depth + 1)
+                    return None
+                fm = {v_: foldm(mterm, v_) for v_ in tv["array"]}
+                if any(x_ is None for x_ in fm.values()):
+                    raise U(rule, f"the mask tested for an entry of {s_[1]} is not a foldable expression of the entry's code: {P.show(mterm)[:80]}", dec)
+                folded = fm
+                is_mask = [not v_ for v_ in is_val]
+            else:
+                is_mask = [unref(u) == mask_t for u in (a_, b_)] if a_ is not None else []
             ok_operands = a_ is not None and sorted(is_mask) == [False, True] and sorted(is_val) == [False, True]
             nonzero = (op, c) in (("Ne", 0), ("Gt", 0), ("Ge", 1))
             zero = (op, c) in (("Eq", 0), ("Lt", 1), ("Le", 0))
@@ -629,7 +676,8 @@ def check_decoder_tables(ctx, F, rule, dec, bits):
                     raise U(rule, f"the scan of {s_[1]} stops at an entry that does not match", dec)
         if hit_edge is None:
             raise U(rule, f"no match test in the scan of {s_[1]}", dec)
-        scans[lp.header] = (lp, s_[1], tv["array"], item)
+        scans[lp.header] = (lp, s_[1], [[folded[v_], v_] for v_ in tv["array"]] if plain else tv["array"], item)
+        scans[lp.header] += (plain,)
     # the card is built from the matched entries' variants
     ret = P.strip(pr.local(0), calls=False)
     ops = None
@@ -649,7 +697,7 @@ def check_decoder_tables(ctx, F, rule, dec, bits):
         def unref2(u):
             u = P.strip(u)
             return ("field", unref2(u[1]), u[2]) if u[0] == "field" else u
-        srcs = [h for h, (lp, nm, arr, item) in scans.items() if unref2(o) == ("field", item, 1)]
+        srcs = [h for h, (lp, nm, arr, item, plain_) in scans.items() if unref2(o) == (item if plain_ else ("field", item, 1))]
         if len(srcs) != 1:
             raise U(rule, f"card field {k} is not the variant of the entry matched by one of the scans: {P.show(o)[:80]}", dec)
         which[fields[k]["ty"]] = scans[srcs[0]]
@@ -892,6 +940,17 @@ def check_card_text(ctx, F):
             return None
         okd = pieces == [("arg", 0, None, None, None), ("arg", 1, None, None, None)] and \
             [v[0] for v in vals] == ["new_display", "new_display"] and [which(v[1]) for v in vals] == [0, 1]
+    if not okd:
+        # any other way of writing the same two characters (two `write_str(char::from(x).encode_utf8(..))?`, nested Display
+        # calls, ..): the text model C06 uses, which must yield exactly [rank of field 0, suit of field 1]
+        try:
+            from rules import c06
+            alts_ = c06.Model(F).expand(CARD, ("deref", ("param", 1)))
+            if len(alts_) == 1 and not alts_[0][0] and not alts_[0][2]:
+                atoms = alts_[0][1]
+                okd = [a[0] for a in atoms] == ["rank", "suit"] and [c06.path_of(a[1]) for a in atoms] == [".0", ".1"]
+        except Unrecognised:
+            okd = False
     if okd:
         ctx.ok(rule, "Display: \"{}{}\" with (rank, suit), no literal text", sample=True)
     else:
